@@ -313,7 +313,7 @@ Definition entry_ok (log : list entry) (n : nat) (e : entry) : Prop :=
 Definition before_eq (e1 e2 : entry) : Prop :=
   (e_gen e1 <= e_gen e2)%nat /\
   (e_gen e1 = e_gen e2 -> e_file e1 = e_file e2) /\
-  f_mtime (e_file e1) <= f_mtime (e_file e2).
+  f_ctime (e_file e1) <= f_ctime (e_file e2).
 
 Definition inv (st : world * list entry) : Prop :=
   let (w, log) := st in
@@ -321,26 +321,19 @@ Definition inv (st : world * list entry) : Prop :=
   (forall n e, nth_error log n = Some e ->
      entry_ok log n e /\
      (e_gen e <= w_gen w)%nat /\ (e_gen e = w_gen w -> e_file e = w_file w) /\
-     f_mtime (e_file e) <= f_mtime (w_file w)) /\
+     f_ctime (e_file e) <= f_ctime (w_file w)) /\
   (forall n m en em, (n <= m)%nat -> nth_error log n = Some en -> nth_error log m = Some em ->
      before_eq en em).
 
 Lemma inv_step st o : inv st -> inv (step st o).
 Proof.
   destruct st as [w log]. intros (W & E & P). destruct W as [Wf Wn]. unfold wf_file in Wf.
-  destruct o as [dt sz|dt|dt|j si sm]; cbn [Model.step].
-  - (* Rewrite *)
-    split; [|split].
-    + split; cbn; [reflexivity|lia].
-    + intros n e H. destruct (E n e H) as (Ok & G & _ & M). split; [exact Ok|]. cbn.
-      split; [lia|]. split; [lia|lia].
-    + exact P.
-  - (* Touch *)
-    split; [|split].
-    + split; cbn; [reflexivity|lia].
-    + intros n e H. destruct (E n e H) as (Ok & G & _ & M). split; [exact Ok|]. cbn.
-      split; [lia|]. split; [lia|lia].
-    + exact P.
+  destruct o as [dt sz|dt|dt sz|dt back|dt|j si sm]; unfold Model.step; cbn [Model.step_with].
+  1-4: (split; [|split];
+        [ unfold wf_world, wf_file; cbn; lia
+        | intros n e H; destruct (E n e H) as (Ok & G & _ & M); split; [exact Ok|]; cbn;
+          split; [lia|]; split; [lia|lia]
+        | exact P ]).
   - (* Wait *)
     split; [|split].
     + split; cbn; [exact Wf|lia].
@@ -370,7 +363,7 @@ Qed.
 Lemma inv_run_from ops : forall st, inv st -> inv (run_from st ops).
 Proof.
   induction ops as [|o ops IH]; intros st H; [exact H|].
-  cbn [Model.run_from fold_left]. apply IH. now apply inv_step.
+  unfold Model.run_from. cbn [fold_left]. apply (IH (step st o)). now apply inv_step.
 Qed.
 
 Lemma inv_run w ops : wf_world w -> inv (w, []) /\ inv (run_from (w, []) ops).
@@ -462,7 +455,29 @@ Proof. reflexivity. Qed.
 Lemma full_not_304 f : r_status (full_response f) = 304 -> False.
 Proof. cbn. discriminate. Qed.
 
-(* ---------------- lm_floor ---------------- *)
+(* ---------------- the date decision; lm_floor ---------------- *)
+
+(* a date-only request with the Last-Modified of the full response j *)
+Lemma date_decision_l w ops n en ej :
+  wf_world w ->
+  nth_error (run w ops) n = Some en ->
+  (e_j en < n)%nat -> nth_error (run w ops) (e_j en) = Some ej -> r_status (e_resp ej) = 200 ->
+  e_inm en = INone -> e_ims en = MLm ->
+  (isec (f_ctime (e_file en)) <= isec (f_mtime (e_file ej)) -> e_resp en = not_modified) /\
+  (isec (f_mtime (e_file ej)) < isec (f_ctime (e_file en)) -> e_resp en = full_response (e_file en)).
+Proof.
+  intros W Hn L Hj Sj Ei Em. destruct (run_facts w ops n en W Hn) as [Wf R].
+  rewrite Ei, Em in R. cbn [render_inm render_ims] in R.
+  rewrite (proj2 (etag_at_200 w ops n (e_j en) ej W L Hj Sj)) in R.
+  rewrite file_response_ims in R. cbn [if_modified_since] in R.
+  split; intros C.
+  - assert (T : (Z.of_N (isec (f_ctime (e_file en))) <=? Z.of_N (isec (f_mtime (e_file ej))))%Z = true)
+      by (apply Z.leb_le; lia).
+    rewrite T in R. exact R.
+  - assert (T : (Z.of_N (isec (f_ctime (e_file en))) <=? Z.of_N (isec (f_mtime (e_file ej))))%Z = false)
+      by (apply Z.leb_gt; lia).
+    rewrite T in R. exact R.
+Qed.
 
 Lemma lm_floor_l w ops n en :
   wf_world w ->
@@ -473,17 +488,50 @@ Lemma lm_floor_l w ops n en :
   (forall ej,
      (e_j en < n)%nat -> nth_error (run w ops) (e_j en) = Some ej -> r_status (e_resp ej) = 200 ->
      e_gen en = e_gen ej -> e_inm en = INone -> e_ims en = MLm ->
+     isec (f_ctime (e_file en)) <= isec (f_mtime (e_file en)) ->
      e_resp en = not_modified).
 Proof.
   intros W Hn. destruct (run_facts w ops n en W Hn) as [Wf R]. split; [|split].
   - intros S. rewrite (status_200_full w ops n en W Hn S). split; reflexivity.
   - intros Ei Em. rewrite Ei, Em in R. exact R.
-  - intros ej L Hj Sj G Ei Em. rewrite Ei, Em in R. cbn [render_inm render_ims] in R.
-    rewrite (proj2 (etag_at_200 w ops n (e_j en) ej W L Hj Sj)) in R.
-    rewrite file_response_ims in R. cbn [if_modified_since] in R.
+  - intros ej L Hj Sj G Ei Em C.
     assert (O := run_order w ops (e_j en) n ej en W ltac:(lia) Hj Hn). destruct O as (_ & O & _).
-    unfold wf_file in Wf. rewrite <- Wf in R. rewrite (O (eq_sym G)) in R.
-    rewrite Z.leb_refl in R. exact R.
+    apply (proj1 (date_decision_l w ops n en ej W Hn L Hj Sj Ei Em)).
+    rewrite (O (eq_sym G)). exact C.
+Qed.
+
+(* a 304 to the date alone: the change time has not left the second Last-Modified named *)
+Lemma date_304_same_second_l (isec_mono : second_monotone isec) w ops n en ej :
+  wf_world w ->
+  nth_error (run w ops) n = Some en -> r_status (e_resp en) = 304 ->
+  (e_j en < n)%nat -> nth_error (run w ops) (e_j en) = Some ej -> r_status (e_resp ej) = 200 ->
+  e_inm en = INone -> e_ims en = MLm ->
+  isec (f_ctime (e_file en)) = isec (f_ctime (e_file ej)) /\
+  isec (f_ctime (e_file ej)) = isec (f_mtime (e_file ej)).
+Proof.
+  intros W Hn S L Hj Sj Ei Em.
+  destruct (N.le_gt_cases (isec (f_ctime (e_file en))) (isec (f_mtime (e_file ej)))) as [C|C].
+  - assert (O := run_order w ops (e_j en) n ej en W ltac:(lia) Hj Hn). destruct O as (_ & _ & O).
+    destruct (run_facts w ops (e_j en) ej W Hj) as [Wfj _]. unfold wf_file in Wfj.
+    pose proof (isec_mono _ _ O). pose proof (isec_mono _ _ Wfj). lia.
+  - rewrite (proj2 (date_decision_l w ops n en ej W Hn L Hj Sj Ei Em) C) in S. cbn in S. discriminate.
+Qed.
+
+(* a 304 to the date alone: no change of any kind a second or more after response j *)
+Lemma date_304_unchanged_l (isec_mono : second_monotone isec) (isec_step : second_steps isec) w ops n en ej :
+  wf_world w ->
+  nth_error (run w ops) n = Some en -> r_status (e_resp en) = 304 ->
+  (e_j en < n)%nat -> nth_error (run w ops) (e_j en) = Some ej -> r_status (e_resp ej) = 200 ->
+  e_inm en = INone -> e_ims en = MLm ->
+  f_ctime (e_file ej) <= f_ctime (e_file en) /\ f_ctime (e_file en) < f_ctime (e_file ej) + ns_per_s /\
+  isec (f_ctime (e_file en)) = isec (f_mtime (e_file ej)).
+Proof.
+  intros W Hn S L Hj Sj Ei Em.
+  destruct (date_304_same_second_l isec_mono w ops n en ej W Hn S L Hj Sj Ei Em) as [E1 E2].
+  assert (O := run_order w ops (e_j en) n ej en W ltac:(lia) Hj Hn). destruct O as (_ & _ & O).
+  split; [exact O|]. split; [|congruence].
+  destruct (N.lt_ge_cases (f_ctime (e_file en)) (f_ctime (e_file ej) + ns_per_s)) as [C|C]; [exact C|].
+  pose proof (isec_step _ _ C). lia.
 Qed.
 
 Hypothesis sha_inj : sha_injective sha.
@@ -508,7 +556,9 @@ Lemma no_stale_304_l (isec_mono : second_monotone isec) w ops n en ej :
      (fkey (f_mtime (e_file en)) = fkey (f_mtime (e_file ej)) /\ f_size (e_file en) = f_size (e_file ej))
      \/ exists d, In d (b ++ af) /\ member_norm d = etag_of (e_file en))
   /\
-  (e_inm en = INone -> e_ims en = MLm -> isec (f_mtime (e_file en)) = isec (f_mtime (e_file ej))).
+  (e_inm en = INone -> e_ims en = MLm ->
+     isec (f_ctime (e_file en)) = isec (f_ctime (e_file ej)) /\
+     isec (f_ctime (e_file ej)) = isec (f_mtime (e_file ej))).
 Proof.
   intros W Hn S L Hj Sj. destruct (run_facts w ops n en W Hn) as [Wf R]. split.
   - intros b ws1 wk ws2 af Ei Wt. rewrite Ei in R.
@@ -517,56 +567,46 @@ Proof.
     destruct (if_none_match (etag_of (e_file en)) (tmpl_header b ws1 wk (etag_of (e_file ej)) ws2 af)) eqn:M.
     + apply tmpl_sound in M as [M|M]; [left; now apply etag_eq_inv|right; exact M|exact Wt|apply etag_hex].
     + rewrite R in S. cbn in S. discriminate.
-  - intros Ei Em. rewrite Ei, Em in R. cbn [render_inm render_ims] in R.
-    rewrite (proj2 (etag_at_200 w ops n (e_j en) ej W L Hj Sj)) in R.
-    rewrite file_response_ims in R. cbn [if_modified_since] in R.
-    destruct (Z.of_N (isec (f_ctime (e_file en))) <=? Z.of_N (isec (f_mtime (e_file ej))))%Z eqn:C.
-    + apply Z.leb_le in C. unfold wf_file in Wf. rewrite <- Wf in C.
-      assert (O := run_order w ops (e_j en) n ej en W ltac:(lia) Hj Hn). destruct O as (_ & _ & O).
-      pose proof (isec_mono _ _ O). lia.
-    + rewrite R in S. cbn in S. discriminate.
+  - intros Ei Em. exact (date_304_same_second_l isec_mono w ops n en ej W Hn S L Hj Sj Ei Em).
 Qed.
 
 (* ---------------- fresh_after_change ---------------- *)
 
-Lemma fresh_after_change_l (fkey_sep : float_separates_seconds fkey) (isec_step : second_steps isec)
-      w ops n en ej :
+Lemma fresh_after_change_l (fkey_sep : float_separates_seconds fkey)
+      (isec_mono : second_monotone isec) (isec_step : second_steps isec) w ops n en ej :
   wf_world w ->
   nth_error (run w ops) n = Some en ->
   (e_j en < n)%nat -> nth_error (run w ops) (e_j en) = Some ej -> r_status (e_resp ej) = 200 ->
   (forall b ws1 wk ws2 af, e_inm en = ITmpl b ws1 wk ws2 af -> wf_tmpl b ws1 ws2 af ->
      decoys_miss (etag_of (e_file en)) (b ++ af) ->
-     f_size (e_file en) <> f_size (e_file ej) \/ f_mtime (e_file ej) + ns_per_s <= f_mtime (e_file en) ->
+     f_size (e_file en) <> f_size (e_file ej) \/
+     f_mtime (e_file ej) + ns_per_s <= f_mtime (e_file en) \/
+     f_mtime (e_file en) + ns_per_s <= f_mtime (e_file ej) ->
      e_resp en = full_response (e_file en) /\ r_etag (e_resp en) <> r_etag (e_resp ej))
   /\
   (e_inm en = INone -> e_ims en = MLm ->
-     f_mtime (e_file ej) + ns_per_s <= f_mtime (e_file en) ->
-     e_resp en = full_response (e_file en) /\ r_etag (e_resp en) <> r_etag (e_resp ej) /\
-     exists lj li, r_lm (e_resp ej) = Some lj /\ r_lm (e_resp en) = Some li /\ lj < li).
+     f_ctime (e_file ej) + ns_per_s <= f_ctime (e_file en) ->
+     e_resp en = full_response (e_file en)).
 Proof.
   intros W Hn L Hj Sj. destruct (run_facts w ops n en W Hn) as [Wf R].
   assert (Fj := status_200_full w ops (e_j en) ej W Hj Sj).
-  assert (Ne : f_size (e_file en) <> f_size (e_file ej) \/ f_mtime (e_file ej) + ns_per_s <= f_mtime (e_file en) ->
+  assert (Ne : f_size (e_file en) <> f_size (e_file ej) \/
+               f_mtime (e_file ej) + ns_per_s <= f_mtime (e_file en) \/
+               f_mtime (e_file en) + ns_per_s <= f_mtime (e_file ej) ->
                etag_of (e_file en) <> etag_of (e_file ej)).
-  { intros C E. apply etag_eq_inv in E as [E1 E2]. destruct C as [C|C]; [congruence|].
-    apply (fkey_sep _ _ C). now symmetry. }
+  { intros C E. apply etag_eq_inv in E as [E1 E2]. destruct C as [C|[C|C]]; [congruence| |].
+    - apply (fkey_sep _ _ C). now symmetry.
+    - now apply (fkey_sep _ _ C). }
   split.
   - intros b ws1 wk ws2 af Ei Wt Dm C. rewrite Ei in R.
     rewrite (render_tmpl w ops n (e_j en) ej b ws1 wk ws2 af W L Hj Sj) in R.
     rewrite file_response_inm in R by apply tmpl_header_nonempty.
     rewrite (tmpl_misses _ _ _ _ _ _ _ Wt (etag_hex _) (Ne C) Dm) in R.
     split; [exact R|]. rewrite R, Fj. cbn. intros E. injection E as E. apply app_inv_tail in E. now apply (Ne C).
-  - intros Ei Em C. rewrite Ei, Em in R. cbn [render_inm render_ims] in R.
-    rewrite (proj2 (etag_at_200 w ops n (e_j en) ej W L Hj Sj)) in R.
-    rewrite file_response_ims in R. cbn [if_modified_since] in R.
-    pose proof (isec_step _ _ C) as St. unfold wf_file in Wf.
-    destruct (Z.of_N (isec (f_ctime (e_file en))) <=? Z.of_N (isec (f_mtime (e_file ej))))%Z eqn:Cmp.
-    + apply Z.leb_le in Cmp. rewrite <- Wf in Cmp. lia.
-    + split; [exact R|]. split.
-      * rewrite R, Fj. cbn. intros E. injection E as E. apply app_inv_tail in E.
-        apply (Ne (or_intror C)). exact E.
-      * exists (isec (f_mtime (e_file ej))), (isec (f_mtime (e_file en))).
-        rewrite R, Fj. cbn. auto.
+  - intros Ei Em C.
+    apply (proj2 (date_decision_l w ops n en ej W Hn L Hj Sj Ei Em)).
+    destruct (run_facts w ops (e_j en) ej W Hj) as [Wfj _]. unfold wf_file in Wfj.
+    pose proof (isec_mono _ _ Wfj). pose proof (isec_step _ _ C). lia.
 Qed.
 
 (* ---------------- etag_revalidates ---------------- *)
@@ -676,4 +716,37 @@ Lemma ex_history_l :
 Proof. vm_compute. reflexivity. Qed.
 
 Lemma ex_w0_wf : wf_world ex_w0.
-Proof. split; [reflexivity|]. cbn. lia. Qed.
+Proof. unfold wf_world, wf_file, ex_w0. cbn. lia. Qed.
+
+(* the variant of file_response that compares the date with the modification time: the file is
+   replaced 3 s after response 0 by one of another size carrying the old mtime *)
+Definition ex_restore_ops : list op := [ Req 0 INone MNone; Restore 3000000000 9; Req 0 INone MLm ].
+
+Lemma mtime_variant_refuted_l :
+  exists fkey sha isec,
+    (sha_injective sha /\ sha_hexdigest sha /\ float_separates_seconds fkey /\
+     second_monotone isec /\ second_steps isec) /\
+  exists w ops n en ej,
+    wf_world w /\
+    nth_error (run_with (file_response_mtime fkey sha isec) w ops) n = Some en /\
+    (e_j en < n)%nat /\
+    nth_error (run_with (file_response_mtime fkey sha isec) w ops) (e_j en) = Some ej /\
+    r_status (e_resp ej) = 200 /\ e_inm en = INone /\ e_ims en = MLm /\
+    f_ctime (e_file ej) + ns_per_s <= f_ctime (e_file en) /\
+    f_size (e_file en) <> f_size (e_file ej) /\ f_ver (e_file en) <> f_ver (e_file ej) /\
+    e_resp en = not_modified.
+Proof.
+  exists ex_fkey, ex_sha, ex_isec. split; [exact ex_laws|].
+  exists ex_w0, ex_restore_ops, 1%nat.
+  eexists. eexists. split; [exact ex_w0_wf|].
+  split; [vm_compute; reflexivity|].
+  split; [vm_compute; lia|]. split; [vm_compute; reflexivity|].
+  repeat split; vm_compute; try reflexivity; try discriminate.
+Qed.
+
+(* the code itself answers that history with the full response of the new version *)
+Lemma ex_restore_history_l :
+  map (fun e => (r_status (e_resp e), r_body (e_resp e), r_lm (e_resp e)))
+      (run ex_fkey ex_sha ex_isec Pages Asgi ex_w0 ex_restore_ops)
+  = [ (200, Some (1, 8), Some 5); (200, Some (2, 9), Some 5) ].
+Proof. vm_compute. reflexivity. Qed.
